@@ -26,6 +26,15 @@ func VerifDir() string {
 	return "/verif"
 }
 
+// OutDir is where evidence/ and replay/ are written (VERIF_OUT overrides it for runs against mutated trees,
+// so that they do not overwrite the evidence of the real tree).
+func OutDir() string {
+	if d := os.Getenv("VERIF_OUT"); d != "" {
+		return d
+	}
+	return VerifDir()
+}
+
 type Violation struct {
 	Sig    string `json:"sig"`
 	Case   string `json:"case"`
@@ -268,7 +277,7 @@ func sanitize(s string) string {
 func (c *Ctx) Finish(rule string, minDistinct int) int {
 	c.mu.Lock()
 	defer c.mu.Unlock()
-	vd := VerifDir()
+	vd := OutDir()
 	// replay files
 	for _, sig := range c.violOrder {
 		v := c.viol[sig]
